@@ -152,4 +152,24 @@ CHECKS = {
                    "from the block being processed or from the block containing the sample is accepted.",
         assumptions=["record lengths and edge-multi settings respect the documented validity rules", "decimation is never enabled in production code and is excluded"],
     ),
+    "C02": dict(
+        pkg=".", hdir="root", test="TestVerif_C02", wal=True,
+        quick=dict(shards=16, checks=4000, timeout=600),
+        thorough=dict(shards=16, checks=60000, timeout=3000),
+        technique="property-based testing (rapid): independent criterion scan of the ground-truth stream (soundness + completeness + overlap + auto-gap), per configuration epoch",
+        rule="rapid-generated 1-2 channel streams with pulses placed preferentially within +-nsamp of block boundaries, block partitions as "
+             "in C01, edge (rising/falling/both) / level (either sense) / auto (delay, veto) mixes, and control histories: fresh start with "
+             "settings restored from a saved configuration file and nothing else, ConfigureTriggers, ConfigurePulseLengths with the same or "
+             "changed lengths, in any order between blocks. non-trivial = >= 1 criterion-satisfying sample within nsamp of a block boundary "
+             "inside the decidable range of an epoch; distinct = FNV-64 of the case",
+        level_text="Every primary trigger must sit on a sample satisfying an enabled criterion; every sample of the decidable range that "
+                   "satisfies the edge criterion must be a trigger or lie in the one-record dead time after an emitted trigger; every "
+                   "level crossing must be a trigger or lie within one record of one; edge-only epochs never overlap; auto without veto "
+                   "leaves no gap beyond max(delay, record)+record, including before the first trigger of an epoch.",
+        level_note="Decidable range of an epoch starting at delivered index E: E+npre <= i and i+(nsamp-npre) <= last index delivered in the "
+                   "epoch (conservative at epoch start, so the oracle never depends on how much history is retained). Dead time counts "
+                   "triggers of earlier epochs with the current record length; after ConfigureTriggers frame 0 acts as a virtual trigger "
+                   "(the code 'forgets' the last trigger by setting it to frame 0).",
+        assumptions=["no group triggers and no edge-multi in this check (C08/C09)", "contiguous frame numbering"],
+    ),
 }
